@@ -41,7 +41,7 @@ CHECKS = {
    note="Trusted: mc/oracles/s3.py. Border tolerance 1e-6 (measured 3e-9 after fix F14); borders of two-face pairs are not compared (left open by the statement)."),
  "C05": dict(category="exploration", design="DESIGN.md §5 C05",
    technique="exhaustive enumeration of direction grids x radial grids, every cell and pair against closed forms on the O-S2 oracle",
-   text="3 algorithms x every N in 4..45, 63, 64 (thorough every N 4..64 with 13 radial grids) x 8 radial grids with unequal increments, unsorted input and every syntax: every cell volume and every ordered pair's adjacency/border/distance is compared with the closed forms of the statement built on the independent spherical Voronoi oracle, plus the three sum rules. Added: all getter words of length <= 3 on one PositionGrid; two-argument range() radial input. Later rounds added: 8-12 shells, N = 98/162, nearly coincident and very different radii.",
+   text="3 algorithms x every N in 4..45, 63, 64 (thorough every N 4..64 with 13 radial grids) x 8 radial grids with unequal increments, unsorted input and every syntax: every cell volume and every ordered pair's adjacency/border/distance is compared with the closed forms of the statement built on the independent spherical Voronoi oracle, plus the three sum rules. Added: all getter words of length <= 3 on one PositionGrid; two-argument range() radial input. Later rounds added: 8-12 shells, N = 98/162, nearly coincident and very different radii. Histories of several grids built in ONE fresh process (DESIGN 9.12) are judged by the same oracle, so state carried between objects is detected.",
    note="Trusted: O-S2 and 40 lines of closed forms; radii of the oracle come from exact rationals. Tolerance 1e-7 relative."),
  "C06": dict(category="exploration", design="DESIGN.md §3 O-E3, §5 C06",
    technique="exhaustive enumeration over every N x radial grids against a Qhull-free cone/slab closed form of the Euclidean Voronoi cells (Qhull ridge areas as oracle self-check)",
